@@ -1,6 +1,7 @@
 //! vh-driver: conformance harness for the `scylla` crate (built with --cfg scylla_verif).
 mod c02;
 mod c03;
+mod c04;
 mod c06;
 use c06 as c06_support;
 mod exec;
@@ -42,6 +43,7 @@ fn main() {
         ("c02", "router") => c02::cmd_router(rest),
         ("exec", "run") => exec::cmd_run(rest),
         ("c03", "run") => c03::cmd_run(rest),
+        ("c04", "run") => c04::cmd_run(rest),
         ("c06", "walk") => c06::cmd_walk(rest),
         ("c11", "run") => c11::cmd_run(rest),
         ("c13", "run") => c13::cmd_run(rest),
